@@ -13,7 +13,7 @@ from ..model import cap, tls, pcapio
 PROP = "C09"
 LEVEL = "exploration"
 
-BASES = ["tls12", "tls13", "quic", "two"]
+BASES = ["tls12", "tls13", "quic", "two", "two_quic"]
 
 
 def describe(tier):
@@ -44,8 +44,14 @@ def base_capture(name, seed):
         flows.append(scen.tls_flow({"version": tls.TLS13, "suite": 0x1302, "history": [("c", 31), ("s", 51)]}, seed, 1))
     if name == "quic":
         flows.append(scen.quic_flow({"suite": 0x1301}, seed, 2))
+    if name == "two_quic":
+        flows.append(scen.quic_flow({"suite": 0x1301, "script": [("c", [(0, 20)]), ("s", [(0, 30)])]}, seed, 2))
+        flows.append(scen.quic_flow({"suite": 0x1303, "script": [("c", [(0, 21)]), ("s", [(0, 31)])]}, seed, 3))
     ends = {f.id: f.ends for f in flows}
-    pkts = cap.stamp(scen.round_robin([f.pkts for f in flows]), ends)
+    if name == "two_quic":
+        pkts = cap.stamp([p for f in flows for p in f.pkts], ends)      # one connection after the other
+    else:
+        pkts = cap.stamp(scen.round_robin([f.pkts for f in flows]), ends)
     lines = []
     for f in flows:
         lines += f.keylog()
@@ -67,13 +73,14 @@ def alternatives(name, lines, npkts, tier, for_pairs=False):
     kinds = ["comment", "blank", "other_cr", "other_cr_exporter", "duplicate"]
     if name != "tls12":
         kinds.append("early_exporter_same_cr")
+        kinds.append("client_early_traffic_same_cr")
     for kind in kinds:
         for pos in range(L + 1):
             ins.append([kind, pos])
     alts["insert"] = ins
     alts["case"] = ["upper_cr", "upper_secret", "upper_both", "mixed"]
     dl = []
-    tls_base = name != "quic"
+    tls_base = name not in ("quic", "two_quic")
     positions = list(range(npkts + 1)) if tls_base else [0]
     for pos in positions:
         dl.append({"kind": "dsb", "at": pos})
@@ -81,6 +88,9 @@ def alternatives(name, lines, npkts, tier, for_pairs=False):
         dl.append({"kind": "dsb_split", "cuts": [a]})
         for b in range(a + 1, L):
             dl.append({"kind": "dsb_split", "cuts": [a, b]})
+    dl.append({"kind": "dsb_before_idb"})
+    if name == "two_quic":
+        dl.append({"kind": "dsb_per_connection"})
     dl.append({"kind": "file_plus_empty_dsb", "payload": ""})
     dl.append({"kind": "file_plus_empty_dsb", "payload": "# keys\n"})
     for r in range(1, L):
@@ -117,6 +127,8 @@ def render(lines, var):
         new = {"comment": "# SSL/TLS secrets log file, generated by NSS", "blank": "",
                "other_cr": f"CLIENT_RANDOM {other} {'cd' * 48}", "other_cr_exporter": f"EXPORTER_SECRET {other} {'ef' * 32}",
                "duplicate": ls[min(pos, len(ls) - 1)],
+               "client_early_traffic_same_cr": "CLIENT_EARLY_TRAFFIC_SECRET %s %s" % (
+                   ([l for l in ls if not l.upper().startswith("CLIENT_RANDOM")] or ls)[0].split(" ")[1], "34" * 32),
                "early_exporter_same_cr": "EARLY_EXPORTER_SECRET %s %s" % (
                    ([l for l in ls if not l.upper().startswith("CLIENT_RANDOM")] or ls)[0].split(" ")[1], "12" * 32)}[kind]
         ls = ls[:pos] + [new] + ls[pos:]
@@ -141,11 +153,35 @@ def execute(pkts, lines, var, judge_cli=False):
     items = cap.to_items(pkts)
     keyfile = None
     cwd = None
+    pre = []
     k = dl["kind"]
     if k == "file":
         keyfile = to_text(ls, eol)
     elif k == "dsb":
         items.insert(dl["at"], pcapio.dsb(to_text(ls, eol)))
+    elif k == "dsb_before_idb":
+        pre = [to_text(ls, eol)]
+    elif k == "dsb_per_connection":
+        # the lines of each connection travel in a DSB of their own, placed directly before that connection's first packet
+        crs = []
+        for l in ls:
+            cr = l.split(" ")[1].lower() if len(l.split(" ")) == 3 else None
+            if cr and cr not in crs:
+                crs.append(cr)
+        first_pkt = {}
+        for i, p in enumerate(pkts):
+            first_pkt.setdefault(p.conn, i)
+        order = sorted(first_pkt.values())
+        # connection k (in capture order) owns the k-th distinct client random in the base log order
+        base_crs = []
+        for l in lines:
+            cr = l.split(" ")[1].lower()
+            if cr not in base_crs:
+                base_crs.append(cr)
+        for pos, cr in sorted(zip(order, base_crs), reverse=True):
+            block = [l for l in ls if len(l.split(" ")) == 3 and l.split(" ")[1].lower() == cr]
+            other = [l for l in ls if not (len(l.split(" ")) == 3 and l.split(" ")[1].lower() in base_crs)]
+            items.insert(pos, pcapio.dsb(to_text(block + (other if pos == order[0] else []), eol)))
     elif k == "dsb_split":
         cuts = [0] + dl["cuts"] + [len(ls)]
         blocks = [pcapio.dsb(to_text(ls[cuts[i]:cuts[i + 1]], eol)) for i in range(len(cuts) - 1)]
@@ -161,7 +197,7 @@ def execute(pkts, lines, var, judge_cli=False):
     elif k == "dsb_only":
         items.insert(0, pcapio.dsb(to_text(ls, eol)))
         cwd = {"repo": harness.SRC, "root": "/", "tmp": None}[dl["cwd"]]
-    data = pcapio.write_pcapng(items)
+    data = pcapio.write_pcapng(items, pre_idb_raw=[pcapio.dsb(t) for t in pre])
     if judge_cli:
         return harness.run_cli(data, keyfile, cwd=cwd)
     return harness.run_tlexport(data, keyfile, cwd=cwd)
